@@ -55,6 +55,17 @@ Theorem C05_no_loss_read : forall b c, wf b -> buf_len b < cap -> c <> [] ->
 Proof. exact read_appends. Qed.
 Print Assumptions C05_no_loss_read.
 
+(* ... and over a whole next_frame call, for every chunk schedule: consumed ++ pending ++ undelivered is invariant *)
+Theorem C05_no_loss : forall st b n fi r' n' res, wf b -> st_ok st ->
+  next_frame (nf_fuel n) {| r_parser := PTcp st; r_buf := b |} n fi = (r', n', res) ->
+  match res with
+  | NfFrame _ | NfEnd (EndBad _) =>
+      exists consumed, b_pend b ++ fst (sched_stream n fi) = consumed ++ b_pend (r_buf r') ++ fst (sched_stream n' fi)
+  | _ => True
+  end.
+Proof. exact tcp_no_loss'. Qed.
+Print Assumptions C05_no_loss.
+
 (* The 1.5.0 buffer-shift bug class: whenever the parser asks for more bytes, fewer than
    `capacity` bytes are pending, so after reset / compaction the next read has room for >= 1 byte. *)
 Theorem C05_never_full : forall st b st' b', wf b -> st_ok st -> mbap_parse st b = (st', b', Ok None) ->
